@@ -49,6 +49,13 @@ def op_coq(o):
         return f"ZSetHz {F.zlit(o[1])} {F.zlit(o[2])}"
     if k == "u":
         return f"ZUntil {F.zlit(o[1])}"
+    if k == "src":
+        return "ZSource"
+    if k == "pull":
+        return "ZSrcPull"
+    if k == "rb":
+        return "ZRebuild (" + {"hz": lambda: f"CHz {F.zlit(o[2])} {F.zlit(o[3])}", "scale": lambda: f"CScale {F.zlit(o[2])}",
+                               "sample": lambda: f"CSample {F.zlit(o[2])}"}[o[1]]() + ")"
     return f"ZSetSample {F.zlit(o[1])}"
 
 
@@ -249,6 +256,117 @@ def gen_unit_case(r, tier, k):
     return build(dict(fmt=fmt, itp=itp, frames=frames, ctor=ctor, ops=ops, kind=fam, ratio=0.5, varying=True))
 
 
+# ---------------------------------------------------------------------------
+# setters and accessors BETWEEN outputs, at every phase of the accumulator: the model's setter semantics is
+# "only the ratio changes" (Signal/ConverterOpsProofs.v: setters_only_ratio, set_same_ratio), so announcing the
+# ratio already in force is a no-op whether the accumulator holds 0, a fraction, exactly 1.0 (one whole source
+# frame pending - the state between any two outputs at ratio 1) or more.  Ratios are dyadic so that the
+# accumulator really visits these values; the quotient a setter will form is checked here to be exactly the
+# intended ratio.  Also source() / source_mut().next() / into_source() + constructor again.
+
+RE_RATIOS = [1.0, 1.0, 0.5, 0.25, 0.75, 1.5, 2.0, 2.5, 3.0, 1.25, 0.375]
+RE_BASES = [44100.0, 48000.0, 8.0, 1.0, 0.3, 96000.0, 22050.0]
+
+
+def ctor_ratio(c):
+    """playback ratio a constructor / rebuild ['hz', a, b] | ['scale', m] | ['sample', m] produces (binary64)"""
+    try:
+        if c[0] == "hz":
+            return b2d(c[1]) / b2d(c[2])
+        if c[0] == "sample":
+            return 1.0 / b2d(c[1])
+        return b2d(c[1])
+    except ZeroDivisionError:
+        return float("nan")
+
+
+def announce(r, ratio, how=None):
+    """['p', x] | ['h', a, b] | ['s', x] setting exactly `ratio`"""
+    how = r.below(3) if how is None else how
+    if how == 1:
+        base = r.choice(RE_BASES)
+        if (ratio * base) / base == ratio:
+            return ["h", d2b(ratio * base), d2b(base)]
+    if how == 2 and 1.0 / (1.0 / ratio) == ratio:
+        return ["s", d2b(1.0 / ratio)]
+    return ["p", d2b(ratio)]
+
+
+def gen_reannounce_case(r, tier, k):
+    itp = k % 2
+    fmt = ["f64", "i16", "f32", "u8", "i16x2", "g_u24", "g_i32"][(k // 2) % 7]
+    own = [0, 0, 0, 1, 2][(k // 14) % 5]
+    nchan = FMT[fmt][1]
+    ratio = RE_RATIOS[(k // 2) % len(RE_RATIOS)] if k < 4 * len(RE_RATIOS) else r.choice(RE_RATIOS)
+    n = r.range(6, 16)
+    L = r.choice([int(n * ratio) + 3, int(n * ratio) + 3, r.range(0, 6), int(n * ratio) // 2])
+    frames = [[rand_sample(r, fmt) for _ in range(nchan)] for _ in range(L)]
+    a = announce(r, ratio)
+    ctor = {"p": lambda: ["scale", a[1]], "h": lambda: ["hz", a[1], a[2]], "s": lambda: ["sample", a[1]]}[a[0]]()
+    cur = ratio
+    ops = []
+    for _ in range(n):
+        if r.chance(3, 5):
+            for _ in range(r.range(1, 2)):
+                c = r.below(14)
+                if c < 7:                      # the ratio in force, announced again (all three setters)
+                    ops.append(announce(r, cur))
+                elif c < 9:                    # a new ratio
+                    cur = r.choice(RE_RATIOS)
+                    ops.append(announce(r, cur))
+                elif c < 11:
+                    ops.append(["src"])
+                elif c == 11:
+                    ops.append(["pull"])
+                elif c == 12:
+                    cur = r.choice(RE_RATIOS)
+                    a = announce(r, cur)
+                    ops.append(["rb"] + {"p": lambda: ["scale", a[1]], "h": lambda: ["hz", a[1], a[2]], "s": lambda: ["sample", a[1]]}[a[0]]())
+                else:
+                    ops.append(announce(r, cur, how=1))
+        ops.append(["n"])
+    ops.append(["src"])
+    return build(dict(fmt=fmt, itp=itp, frames=frames, ctor=ctor, ops=ops, kind="reannounce", ratio=ratio, varying=True,
+                      own=own, tail=(r.range(1, 2) if own else 0)))
+
+
+def op_phases(item):
+    """replays the accumulator in binary64: (operation, phase of the accumulator at the call, same/new ratio) for every
+    setter / accessor / rebuild of a Converter case"""
+    out = []
+    if item["ctor"][0] == "mul":
+        return out
+    ratio = ctor_ratio(item["ctor"])
+    if not (ratio > 0.0) or ratio > 1e6:
+        return out
+    v = 0.0
+    for o in item["ops"]:
+        k = o[0]
+        if k == "n":
+            if not (abs(v) < 1e9):
+                break
+            while v >= 1.0:
+                v -= 1.0
+            v += ratio
+            continue
+        if k == "u":
+            break
+        phase = "zero" if v == 0.0 else "frac" if v < 1.0 else "one" if v == 1.0 else "above1"
+        if k in ("src", "pull"):
+            out.append((k, phase, "-"))
+            continue
+        if k == "rb":
+            out.append((k, phase, "ctor"))
+            ratio, v = ctor_ratio(o[1:]), 0.0
+            if not (ratio > 0.0):
+                break
+            continue
+        new = ctor_ratio({"p": ["scale", o[1]], "h": ["hz"] + o[1:], "s": ["sample", o[1]]}[k])
+        out.append((k, phase, "same" if new == ratio else "new"))
+        ratio = new
+    return out
+
+
 def b2d(b):
     return struct.unpack("<d", struct.pack("<Q", b))[0]
 
@@ -281,6 +399,12 @@ def unit_feature(item):
             ratio = b2d(o[1]) / b2d(o[2]) if b2d(o[2]) != 0.0 else float("nan")
         elif o[0] == "s":
             ratio = 1.0 / b2d(o[1]) if b2d(o[1]) != 0.0 else float("nan")
+        elif o[0] in ("src", "pull"):
+            continue
+        elif o[0] == "rb":
+            ratio, v = ctor_ratio(o[1:]), 0.0
+            if not (ratio > 0.0):
+                return unit, exact
         else:
             if ctl is not None:
                 ratio = ctl[k] if k < len(ctl) else 0.0
@@ -469,6 +593,8 @@ def gen_cases(rng, tier):
         items.append(gen_borrow_case(rng.fork(f"borrow{k}"), tier, k))
     for k in range(96 if tier == "quick" else 1280):
         items.append(gen_fmt_case(rng.fork(f"fmt{k}"), tier, k))
+    for k in range(110 if tier == "quick" else 1400):
+        items.append(gen_reannounce_case(rng.fork(f"reannounce{k}"), tier, k))
     items += gen_malformed(rng.fork("malformed"))
     return items
 
@@ -551,7 +677,7 @@ def main(rep, tier, seed):
                 continue
             if t[0] == "8":
                 hist["ctor_panics"] += 1
-            if t[0] == "0":
+            if t[0] in ("0", "7"):
                 prev = int(t[1])
             if t[0] in ("1", "2"):
                 hist["outputs"] += 1
@@ -574,6 +700,13 @@ def main(rep, tier, seed):
             uf["accumulator_exactly_integer_cases"] += 1
             uf["accumulator_exactly_integer_outputs"] += e
     hist["unit_ratio_at_fractional_position"] = uf
+    # setters / accessors / rebuilds between outputs: which operation met which phase of the accumulator
+    ph = {}
+    for it in items:
+        for k, phase, what in op_phases(it):
+            key = f"{k}:{phase}" + ("" if what == "-" else f":{what}")
+            ph[key] = ph.get(key, 0) + 1
+    hist["converter_ops_by_accumulator_phase"] = dict(sorted(ph.items()))
     own_names = {0: "owned", 1: "by_ref", 2: "mut_ref"}
     hist["source_ownership"] = {}
     for it in items:
@@ -618,7 +751,7 @@ def finish(rep, info, n, nontriv, dist, samples, bad=(), fb=None):
             "modelled, not verified: Frame::zip_map on arrays as per-channel list map, Signal/Iterator trait dispatch, the Counted/CountIter instrumentation in the harness"],
         "theorems": th, "axioms_reported": info.get("axioms", []),
         "evaluations": n, "distinct_nontrivial": nontriv,
-        "rule": "one evaluation = one converter run (priming, construction, up to 80 outputs, every observation compared); non-trivial = the ratio is not 1 and the run reaches exhaustion (some output observed with is_exhausted = 1), or the ratio varies per output (mul_hz control signal / set_* calls); extra feature counted in input_distribution.unit_ratio_at_fractional_position: ratio exactly 1.0 (mul_hz control value, set_playback_hz_scale(1.0), set_hz_to_hz(a, a), set_sample_hz_scale(1.0)) at an output where the accumulator's fraction is not 0, and accumulators landing exactly on / just below integers; input_distribution.source_ownership: converters built over source.by_ref() / &mut source (constant and mul_hz ratios, floor and linear) with is_exhausted before each output, until_exhausted().take(cap).count() and the source pulled again after the converter is dropped; format histogram: all 14 sample formats + stereo through the generated conversions, run past the end of the source (equilibrium = the specified value, not the source table's); input_distribution.hz_quotient_not_reciprocal_of_reciprocal: from_hz_to_hz / set_hz_to_hz cases over unusual and non-integer rate pairs whose quotient a/b differs in binary64 from 1/(b/a) (the accumulator after the first output is the ratio in effect, compared bit-for-bit)",
+        "rule": "one evaluation = one converter run (priming, construction, up to 80 outputs, every observation compared); non-trivial = the ratio is not 1 and the run reaches exhaustion (some output observed with is_exhausted = 1), or the ratio varies per output (mul_hz control signal / set_* calls); extra feature counted in input_distribution.unit_ratio_at_fractional_position: ratio exactly 1.0 (mul_hz control value, set_playback_hz_scale(1.0), set_hz_to_hz(a, a), set_sample_hz_scale(1.0)) at an output where the accumulator's fraction is not 0, and accumulators landing exactly on / just below integers; input_distribution.source_ownership: converters built over source.by_ref() / &mut source (constant and mul_hz ratios, floor and linear) with is_exhausted before each output, until_exhausted().take(cap).count() and the source pulled again after the converter is dropped; format histogram: all 14 sample formats + stereo through the generated conversions, run past the end of the source (equilibrium = the specified value, not the source table's); input_distribution.hz_quotient_not_reciprocal_of_reciprocal: from_hz_to_hz / set_hz_to_hz cases over unusual and non-integer rate pairs whose quotient a/b differs in binary64 from 1/(b/a) (the accumulator after the first output is the ratio in effect, compared bit-for-bit); input_distribution.converter_ops_by_accumulator_phase: every setter (announcing the ratio in force again as often as a new one), source(), source_mut().next() and into_source() + constructor again, called between outputs while the accumulator holds 0 / a fraction / exactly 1.0 / more than 1 (family reannounce, floor and linear, owned and borrowed sources)",
         "samples": samples, "input_distribution": dist, "disagreements": len(bad),
         "known_finding_class": "K3: accumulator >= 2^53 (ratio >= 2^53 or non-finite): excluded from generation, never executed on the real code; refuted on the binary64 model (c08_k3_refuted)",
         "explanation": "theorems: real-arithmetic position/consumption/exhaustion/count statements for all positive ratio sequences, sources and both interpolators + binary64 exactness of the pull loop below 2^53; tie: the same Gallina model over Flocq binary64 evaluated by coqc on the cases the real Converter/MulHz run, all observations (frames, pull counters, exhaustion flags, accumulator bits) compared exactly",
